@@ -186,3 +186,4 @@ MANIFEST = {
     'note': 'Trusted: IEEE double arithmetic within 1e-9 relative tolerance; the reduction of '
             '"s times as likely" to the weight vector (numpy.random.choice is not re-tested).',
 }
+MANIFEST['text'] += (' ' + '4% of the cases run Generator(args) (after an earlier run with another skew) and check every weight vector handed to numpy.random.choice.')
